@@ -13,10 +13,14 @@
 (*                     reproduces the all-variants-skipped recursion)      *)
 (*   MelSound          ImplMel(Mode, def) >= MaxLen(Layout(def))           *)
 (*                     (Mode = "legacy": struct {#[codec(compact)] u32})   *)
+(*   FastPathSound     (ASSUME over all transparent definitions) whenever  *)
+(*                     the in-place fast path is taken it reads exactly    *)
+(*                     the layout; IntoMode = ignore_compact / demorgan /  *)
+(*                     skip_zst are refuted                                *)
 (***************************************************************************)
 EXTENDS Derive
 
-CONSTANTS Mode, Tier
+CONSTANTS Mode, Tier, IntoMode
 
 Attrs == {"none", "skip", "compact", "encoded_as"}
 Fields == { [ty |-> t, attr |-> a] : t \in {"u8", "u32", "vecu8", "optu16", "gen", "vecgen"}, a \in {"none", "skip"} }
@@ -52,6 +56,15 @@ Enums ==
          a \in { x \in DV : Len(x.fs) = 1 }, b \in { x \in DV : Len(x.fs) = 0 }, c \in { x \in DV : Len(x.fs) = 2 /\ ~x.skip } }
 
 Defs == Structs \cup { d \in Enums : RustValid(d) }
+
+\* transparent structs: one data field (any attribute) plus up to one zero-sized field on either side
+ZstFields == { [ty |-> "unit0", attr |-> "none"], [ty |-> "unit1", attr |-> "none"] }
+DataFields == { [ty |-> "u32", attr |-> "none"], [ty |-> "u64", attr |-> "compact"], [ty |-> "u32", attr |-> "encoded_as"],
+                [ty |-> "vecu8", attr |-> "none"] }
+TranspDefs == { [kind |-> "struct", shape |-> "named", transparent |-> TRUE, fs |-> fs] :
+                  fs \in { <<d>> : d \in DataFields } \cup { <<d, z>> : d \in DataFields, z \in ZstFields }
+                        \cup { <<z, d>> : d \in DataFields, z \in ZstFields } \cup { <<z>> : z \in ZstFields } }
+ASSUME \A d \in TranspDefs : FastPathSound(IntoMode, d)
 
 VARIABLES def, v, stage
 vars == <<def, v, stage>>
